@@ -115,22 +115,21 @@ def smchart_guards(ctx: Ctx) -> None:
             outs[pol] = n
     okg = isinstance(outs.get(True), ast.Return) and matches("getattr($s, $k.lower())", outs[True].value) and isinstance(outs.get(False), ast.Raise) and len(outs) == 2
     ctx.expect("R-TABLE", gi, "chart[key] reads the field attribute for the six keys and raises KeyError otherwise", okg, "", "", node=gi.node)
-    kp = si.param_names()[1]
-    outs = {}
-    for n in body_walk(si.node):
-        if isinstance(n, (ast.Return, ast.Raise, ast.Expr)) and not (isinstance(n, ast.Expr) and isinstance(n.value, ast.Constant)):
-            fs = facts(ctx, si, n)
-            pol = None
-            for a, po in fs:
-                if isinstance(a, ast.Compare) and isinstance(a.ops[0], (ast.In, ast.NotIn)) and ast.unparse(a.left) in (kp, f"{kp}.upper()"):
-                    t = try_ev(ctx, si, a.comparators[0])
-                    if t is not None and tuple(t) == table:
-                        pol = po if isinstance(a.ops[0], ast.In) else not po
-            outs[pol] = n
-    v = outs.get(True)
-    val = v.value if isinstance(v, (ast.Return, ast.Expr)) else None
-    oks = val is not None and matches("super().__setitem__($k, $v)", val) and [ast.unparse(x) for x in val.args] == si.param_names()[1:3] and isinstance(outs.get(False), ast.Raise)
-    ctx.expect("R-TABLE", si, "chart[key] = v stores the six keys and raises KeyError otherwise", oks, "", "", node=si.node)
+    from .tables import function_decs, judge as tjudge, sums_of as tsums, terminal_text, closed
+    kp, vp = si.param_names()[1:3]
+    IN = f"{kp}.upper() in {tuple(sorted(table))!r}"
+
+    def out(s_):
+        k_, v_ = s_.terminal()
+        if k_ == "raise":
+            return terminal_text(s_)
+        calls_ = [e for e in s_.effects if e.kind in ("expr", "return") and isinstance(e.value, ast.Call)]
+        v_ = closed(s_, v_) if v_ is not None else (closed(s_, calls_[-1].value) if calls_ else None)
+        others = [e.text for e in s_.effects if e.kind in ("store", "aug", "delete")]
+        return "store " + (ast.unparse(v_) if v_ is not None else "nothing") + (f" after {others}" if others else "")
+
+    tjudge(ctx, "R-TABLE", si, "chart[key] = v stores exactly v under exactly key for the six keys, and raises KeyError otherwise", function_decs(tsums(ctx, si), out), [IN],
+           lambda a: f"store super().__setitem__({kp}, {vp})" if a[IN] else "raise KeyError", why="a value changed on the way into the chart (trimmed, defaulted) is a chart field that does not hold what was assigned or converted")
     for m in ("clear", "setdefault", "__ior__"):
         if m not in ci.methods:
             ctx.observe("R-TABLE", ci, f"SMChart.{m} is inherited", "outside the property's operation set")
